@@ -13,7 +13,9 @@ import (
 
 func ip(i int) *int { return &i }
 
-func c17File(name string, nm *string) c17WFile { return c17WFile{Name: name, Docs: []c17Doc{{Name: nm}}} }
+func c17File(name string, nm *string) c17WFile {
+	return c17WFile{Name: name, Docs: []c17Doc{{Name: nm}}}
+}
 
 // c17CfgTree: 0 = Top (default names + .env), 1 = mid (child of Top), 2 = cwd (child of mid, process directory,
 // holds x.yaml and sub/), 3 = sub (child of cwd, holds y.yaml), 4 = alt (separate tree, own compose.yaml),
